@@ -35,7 +35,10 @@ EXPLANATION = (
     'on every path that records a size other than 1 (the vector applier reads the third entry unconditionally); '
     'never of a raw sum of squares (overflow / underflow of the squares for entries near the thresholds). NOT decided: orthogonality, Q R = H - s I and Q\'HQ to n*eps (rounding), the '
     'Taylor branches of the magnitude helpers, deflation thresholds and block splitting (index safety of the blocks is C13). '
-    'Those clauses of the property remain undecided by this technique.')
+    'Those clauses of the property remain undecided by this technique.'
+    ' (D14) every magnitude helper that chooses between a closed form and a truncated series (the Givens helper; stable_norm3 and the '
+    'three-component scaling of DoubleShiftQR): both branches are expanded as exact rational power series; the closed form is the documented '
+    'function and the series branch is the beginning of its Maclaurin series with a remainder below eps/4 at the cutoff read from the code.')
 ASSUMPTIONS = ['column-major storage of Eigen::Matrix (Rii[1] is the entry below Rii[0]; p + m_n is the same row of the next column)',
                'magnitude helper contract as documented: for a >= b > 0 returns r > 0, out4 = a / r > 0, out5 = b / r > 0']
 
@@ -413,6 +416,241 @@ def _signs(ctx, gen, P):
         ctx.check(not problems, 'rotation-annihilates', 'UpperHessenbergQR::compute_rotation', fn.qname,
                   '%d path/sign cases: r >= 0, row 2 of P [x; y] cancels, row 1 non-negative; magnitude helper: larger first, |x|/r -> c, |y|/r -> s' % ncase
                   if not problems else '; '.join(sorted(set(problems))[:4]))
+
+
+# ------------------------------------------------------------------------------------------------ series branch of the magnitude helper
+class _Series:
+    """Truncated power series in t with exact rational coefficients."""
+    D = 14
+
+    def __init__(self, c):
+        from fractions import Fraction
+        self.c = [Fraction(x) for x in c][:self.D] + [Fraction(0)] * max(0, self.D - len(c))
+
+    @staticmethod
+    def const(v):
+        return _Series([v])
+
+    def __add__(self, o):
+        return _Series([a + b for a, b in zip(self.c, o.c)])
+
+    def __sub__(self, o):
+        return _Series([a - b for a, b in zip(self.c, o.c)])
+
+    def __mul__(self, o):
+        out = [0] * self.D
+        for i, a in enumerate(self.c):
+            if a:
+                for j, b in enumerate(o.c):
+                    if i + j < self.D and b:
+                        out[i + j] += a * b
+        return _Series(out)
+
+    def inv(self):
+        if self.c[0] == 0:
+            raise Unsupported('division by a series without constant term')
+        out = [1 / self.c[0]] + [0] * (self.D - 1)
+        for n in range(1, self.D):
+            out[n] = -sum(self.c[k] * out[n - k] for k in range(1, n + 1)) / self.c[0]
+        return _Series(out)
+
+    def sqrt(self):
+        from fractions import Fraction
+        c0 = self.c[0]
+        r = None
+        for q in range(1, 65):
+            if Fraction(q * q) == c0:
+                r = Fraction(q)
+        if r is None:
+            raise Unsupported('square root of a series whose constant term is not a small perfect square')
+        out = [r] + [0] * (self.D - 1)
+        for n in range(1, self.D):
+            out[n] = (self.c[n] - sum(out[i] * out[n - i] for i in range(1, n))) / (2 * r)
+        return _Series(out)
+
+
+def _series_eval(t, env):
+    from fractions import Fraction
+    if t[0] == 'lit':
+        try:
+            return _Series.const(Fraction(int(t[1])))
+        except ValueError:
+            return _Series.const(Fraction(float(t[1])))
+    if t[0] in ('P', 'L'):
+        if t in env:
+            return env[t]
+        raise Unsupported('free variable %s' % (t,))
+    if t[0] in ('+', '*'):
+        acc = _series_eval(t[1], env)
+        for u in t[2:]:
+            v = _series_eval(u, env)
+            acc = acc + v if t[0] == '+' else acc * v
+        return acc
+    if t[0] == '-' and len(t) == 3:
+        return _series_eval(t[1], env) - _series_eval(t[2], env)
+    if t[0] == 'u-':
+        return _Series.const(0) - _series_eval(t[1], env)
+    if t[0] == '/':
+        return _series_eval(t[1], env) * _series_eval(t[2], env).inv()
+    if t[0] == 'call' and t[1] == 'sqrt' and len(t) == 3:
+        return _series_eval(t[2], env).sqrt()
+    raise Unsupported('term %s outside the series domain' % (t[:2],))
+
+
+def _series_ternaries(ctx, rule):
+    """The three-component helpers of DoubleShiftQR pick between a closed form and a series by `cond ? closed : series`, both arms
+    in one variable u = x^2 + y^2 with the condition `cutoff <= |x| || cutoff <= |y|`: in the series arm 0 <= u < 2 cutoff^2."""
+    n = 0
+    seen = set()
+    for fn in ctx.F.concrete():
+        if not fn.cfg or not (fn.cls or '').startswith('Spectra::') or (fn.cls, fn.name, len(fn.params)) in seen:
+            continue
+        for x in fn.walk():
+            if x['k'] != 'ConditionalOperator':
+                continue
+            cond = sym(fn, x['c'][0], inline=False)
+            parts = list(cond[1:]) if cond[0] == '||' else [cond]
+            if not all(isinstance(p_, tuple) and p_[0] in ('<=', '<') and len(p_) == 3 for p_ in parts):
+                continue
+            cuts = set(p_[1] for p_ in parts)
+            if len(cuts) != 1 or list(cuts)[0][0] != 'L':
+                continue
+            cut = sym(fn, [d['init'] for y in fn.walk() if y['k'] == 'DeclStmt' for d in y['decls'] if 'var' in d and 'init' in d and ('L', fn.locals[d['var']]['name']) == list(cuts)[0]][0])
+            K, e = None, None
+            if cut[0] == '*' and len(cut) == 3:
+                for u_, v_ in ((cut[1], cut[2]), (cut[2], cut[1])):
+                    if u_[0] == 'lit' and v_[0] == 'call' and v_[1] == 'pow' and len(v_) == 4 and v_[3][0] == 'lit' and show(v_[2]).startswith('epsilon'):
+                        K, e = float(u_[1]), float(v_[3][1])
+            if K is None:
+                continue
+            seen.add((fn.cls, fn.name, len(fn.params)))
+            inst = '%s::%s' % (fn.cls.replace('Spectra::', ''), fn.name)
+            comps = [p_[2][2] if p_[2][0] == 'call' and p_[2][1] == 'abs' else p_[2] for p_ in parts]
+            a_closed, a_series = sym(fn, x['c'][1], inline=False), sym(fn, x['c'][2], inline=False)
+            from .sym import atoms
+            vs = set(a for a in atoms(a_closed) | atoms(a_series) if isinstance(a, tuple) and a[0] in ('L', 'P'))
+            problems = []
+            if len(vs) != 1:
+                raise AnalysisBroken('%s: the two arms of the cutoff expression are not functions of one variable: %s' % (fn.qname, sorted(map(show, vs))))
+            U = list(vs)[0]
+            # u = sum of the squares of the compared quantities (last definition before the expression)
+            defs = []
+            for y in fn.walk():
+                if y['k'] == 'DeclStmt':
+                    for d in y['decls']:
+                        if 'var' in d and 'init' in d and ('L', fn.locals[d['var']]['name']) == U and y['l'] <= x['l']:
+                            defs.append(sym(fn, d['init'], inline=False))
+            want_terms = sorted(('*', c_, c_) for c_ in comps)
+            if not defs or not (defs[-1][0] == '+' and sorted(defs[-1][1:]) == want_terms):
+                problems.append('%s is not the sum of the squares of the quantities compared with the cutoff (%s)' % (U[1], ', '.join(show(c_) for c_ in comps)))
+            try:
+                sc = _series_eval(a_closed, {U: _Series([0, 1])})
+                ss = _series_eval(a_series, {U: _Series([0, 1])})
+            except Unsupported as ex:
+                raise AnalysisBroken('%s: %s' % (fn.qname, ex))
+            n += 1
+            diff = [p_ - q_ for p_, q_ in zip(ss.c, sc.c)]
+            k = next((i for i, d in enumerate(diff) if d != 0), None)
+            if k is not None:
+                for eps in (2.0 ** -23, 2.0 ** -52, 2.0 ** -63):
+                    ub = len(parts) * (K * eps ** e) ** 2
+                    err = abs(float(diff[k])) * ub ** k
+                    if err > eps / 4:
+                        problems.append('series arm differs from the closed arm at degree %d in %s (coefficient %s instead of %s): up to %.1e just below the cutoff, eps = %.1e' %
+                                        (k, U[1], ss.c[k], sc.c[k], err, eps))
+                        break
+            ctx.check(not problems, rule, inst, fn.qname,
+                      'series arm = beginning of the Maclaurin series of the closed arm `%s` in %s = sum of squares; remainder below eps/4 for 0 <= %s < %d cutoff^2' %
+                      (show(a_closed)[:40], U[1], U[1], len(parts)) if not problems else '; '.join(problems[:3]))
+    if n < 2:
+        raise AnalysisBroken('only %d closed-form / series expressions found in the three-component helpers (2 confirmed by hand)' % n)
+
+
+def series_branch(ctx, rule='series-branch-matches-closed-form'):
+    """stable_scaling(a, b) computes r = sqrt(a^2 + b^2), c = a / r, s = b / r for a >= b > 0 in two ways: in closed form when
+    t = b / a is at least a cutoff K * eps^e, and by a truncated series below it.  Both are functions of t (r is a times one), so the
+    series branch is right only if its polynomial is the beginning of the Maclaurin series of what the closed-form branch computes:
+    with the first differing coefficient d_k at degree k, |d_k| * cutoff^k must stay below eps / 4 for every scalar type.  Both
+    branches are read from the code and expanded as exact rational power series (a = 1, 2, 3; b = a t); nothing is executed."""
+    from fractions import Fraction
+    fns = [f for f in ctx.F.concrete() if f.name == 'stable_scaling' and f.cfg and (f.cls or '').startswith('Spectra::') and len(f.params) == 5]
+    if len(fns) < 1:
+        raise AnalysisBroken('stable_scaling(a, b, r, c, s) is not instantiated')
+    _series_ternaries(ctx, rule)
+    seen = set()
+    for fn in fns:
+        key = fn.cls
+        if key in seen:
+            continue
+        seen.add(key)
+        inst = '%s::stable_scaling' % fn.cls.replace('Spectra::', '')
+        pn = [fn.locals[v]['name'] for v in fn.params]
+        if len(pn) != 5:
+            raise AnalysisBroken('%s: %d parameters' % (fn.qname, len(pn)))
+        A, B, R, Cn, Sn = (('P', x) for x in pn)
+        ifs = [i for i in fn.walk() if i['k'] == 'IfStmt']
+        if len(ifs) != 1 or ifs[0].get('else', -1) < 0:
+            raise AnalysisBroken('%s: expected one two-armed branch on the ratio' % fn.qname)
+        cond = sym(fn, ifs[0]['cond'])
+        ratio = ('/', B, A)
+        # cutoff = K * pow(eps, e), compared with b / a
+        if cond[0] not in ('<=', '<') or ratio not in cond[1:]:
+            raise AnalysisBroken('%s: branch condition %s is not a comparison of b / a with a cutoff' % (fn.qname, show(cond)))
+        cut = [u for u in cond[1:] if u != ratio][0]
+        closed_is_then = (cond[2] == ratio)           # cutoff <= t  ->  then-branch is the closed form
+        K, e = None, None
+        if cut[0] == '*' and len(cut) == 3:
+            for u, v in ((cut[1], cut[2]), (cut[2], cut[1])):
+                if u[0] == 'lit' and v[0] == 'call' and v[1] == 'pow' and len(v) == 4 and v[3][0] == 'lit' and show(v[2]).startswith('epsilon'):
+                    K, e = float(u[1]), float(v[3][1])
+        if K is None:
+            raise AnalysisBroken('%s: cutoff %s is not K * pow(epsilon, e)' % (fn.qname, show(cut)))
+        problems = []
+        table = {}
+        for alpha in (1, 2, 3):
+            for which, branch in (('closed', ifs[0]['then'] if closed_is_then else ifs[0]['else']), ('series', ifs[0]['else'] if closed_is_then else ifs[0]['then'])):
+                env = {A: _Series.const(alpha), B: _Series([0, alpha])}
+                outs = {}
+                for x in fn.walk(branch):
+                    if x['k'] == 'BinaryOperator' and x.get('op') == '=':
+                        lhs = sym(fn, x['c'][0], inline=False)
+                        if lhs in (R, Cn, Sn):
+                            try:
+                                v = _series_eval(sym(fn, x['c'][1]), env)
+                            except Unsupported as ex:
+                                raise AnalysisBroken('%s: %s branch: %s' % (fn.qname, which, ex))
+                            env[lhs] = v
+                            outs[lhs] = v
+                if set(outs) != {R, Cn, Sn}:
+                    raise AnalysisBroken('%s: %s branch assigns %s' % (fn.qname, which, sorted(show(o) for o in outs)))
+                table[(alpha, which)] = outs
+        # the closed form is what the helper documents: c = 1/sqrt(1+t^2), s = t c, r = a sqrt(1+t^2)
+        one_t2 = _Series([1, 0, 1])
+        ref = {Cn: one_t2.sqrt().inv(), Sn: _Series([0, 1]) * one_t2.sqrt().inv()}
+        for alpha in (1, 2, 3):
+            cl = table[(alpha, 'closed')]
+            want = dict(ref)
+            want[R] = _Series.const(alpha) * one_t2.sqrt()
+            for o in (R, Cn, Sn):
+                if cl[o].c != want[o].c:
+                    problems.append('closed-form branch: %s is not %s' % (o[1], {R: 'a sqrt(1 + t^2)', Cn: '1 / sqrt(1 + t^2)', Sn: 't / sqrt(1 + t^2)'}[o]))
+            se = table[(alpha, 'series')]
+            for o in (R, Cn, Sn):
+                diff = [x - y for x, y in zip(se[o].c, cl[o].c)]
+                k = next((i for i, d in enumerate(diff) if d != 0), None)
+                if k is None:
+                    continue
+                scale = alpha if o == R else 1
+                for eps in (2.0 ** -23, 2.0 ** -52, 2.0 ** -63):
+                    cutoff = K * eps ** e
+                    err = abs(float(diff[k])) * cutoff ** k / scale
+                    if err > eps / 4:
+                        problems.append('series branch: %s differs from the closed form at degree %d (coefficient %s instead of %s, a = %d): up to %.1e relative just below the cutoff %.1e, eps = %.1e' %
+                                        (o[1], k, se[o].c[k], cl[o].c[k], alpha, err, cutoff, eps))
+                        break
+        ctx.check(not problems, rule, inst, fn.qname,
+                  'closed form = (a sqrt(1+t^2), 1/sqrt(1+t^2), t/sqrt(1+t^2)); the series branch agrees with its Maclaurin series up to a remainder below eps/4 at the cutoff %g * eps^%g '
+                  '(float, double, extended)' % (K, e) if not problems else '; '.join(sorted(set(problems))[:3]))
 
 
 def _sign_run(fn, env0, outs):
@@ -1251,5 +1489,6 @@ def run(ctx):
     double_shift(ctx)
     scaled_norms(ctx)
     output_fully_defined(ctx)
+    series_branch(ctx)
     from . import stale
     stale.loop_buffers(ctx, scope=lambda fn: fn.cls in ('Spectra::UpperHessenbergQR', 'Spectra::TridiagQR', 'Spectra::DoubleShiftQR'), min_instances=4)
